@@ -114,6 +114,8 @@ struct Var {
     /// operator label (last class label set before the variable was created)
     label: String,
     args: Vec<usize>,
+    /// per-item stateless pipeline of a single batched input (tick mode)
+    pure: bool,
 }
 
 #[derive(Clone, Debug)]
@@ -225,7 +227,10 @@ impl<'c> Gen<'c> {
         }
         let id = self.vars.len();
         let label = if args.is_empty() { "source".to_string() } else { std::mem::take(&mut self.last_class) };
-        self.vars.push(Var { kind, uses: 0, delay, carried, label, args: args.clone() });
+        let pure = !args.is_empty()
+            && args.iter().all(|a| self.vars[*a].pure)
+            && matches!(label.as_str(), "map" | "filter" | "filter_map" | "flat_map_ordered");
+        self.vars.push(Var { kind, uses: 0, delay, carried, label, args: args.clone(), pure });
         self.stmts.push(Stmt { res: Some(id), tmpl, args });
         id
     }
@@ -256,11 +261,13 @@ impl<'c> Gen<'c> {
         if self.mode == Mode::Tick {
             // tick programs only see the batch (no top-level handle on the input)
             self.uses_tick = true;
-            self.new_var(
+            let id = self.new_var(
                 Kind::S { el, loc: Loc::Tick, bounded: true, ordered: true, once: true },
                 format!("p.embedded_input::<{}>(\"{}\").batch(&tick, nondet!(/** the batch is the schedule */))", el.rust(), name),
                 vec![],
-            )
+            );
+            self.vars[id].pure = true;
+            id
         } else {
             self.new_var(
                 Kind::S { el, loc: Loc::Top, bounded: false, ordered: true, once: true },
@@ -400,6 +407,16 @@ impl<'c> Gen<'c> {
         true
     }
 
+    /// (prefix, suffix) wrapping a top-level unary stateful operator into an atomic region
+    fn atomic_wrap(&mut self, loc: Loc) -> (&'static str, &'static str) {
+        if loc == Loc::Top && self.mode != Mode::Tick && self.ch.chance(1, 3) {
+            self.class("atomic");
+            (".atomic()", ".end_atomic()")
+        } else {
+            ("", "")
+        }
+    }
+
     fn op_enumerate(&mut self) -> bool {
         let Some(a) = self.find(|k| matches!(k, Kind::S { ordered: true, once: true, .. })) else { return false };
         let Kind::S { el, loc, bounded, .. } = self.vars[a].kind else { unreachable!() };
@@ -409,9 +426,10 @@ impl<'c> Gen<'c> {
         };
         self.class("enumerate");
         self.stateful(loc);
+        let (pre, post) = self.atomic_wrap(loc);
         self.new_var(
             Kind::S { el: El::P, loc, bounded, ordered: true, once: true },
-            format!("{{0}}.enumerate().map(q!({f}))"),
+            format!("{{0}}{pre}.enumerate().map(q!({f})){post}"),
             vec![a],
         );
         true
@@ -426,9 +444,10 @@ impl<'c> Gen<'c> {
         }
         self.class("scan");
         self.stateful(loc);
+        let (pre, post) = self.atomic_wrap(loc);
         self.new_var(
             Kind::S { el: El::I, loc, bounded, ordered: true, once: true },
-            format!("{{0}}.scan(q!(|| 0i64), q!({f}))"),
+            format!("{{0}}{pre}.scan(q!(|| 0i64), q!({f})){post}"),
             vec![a],
         );
         true
@@ -439,7 +458,8 @@ impl<'c> Gen<'c> {
         let Kind::S { el, loc, bounded, ordered, .. } = self.vars[a].kind else { unreachable!() };
         self.class("unique");
         self.stateful(loc);
-        self.new_var(Kind::S { el, loc, bounded, ordered, once: true }, "{0}.unique()".into(), vec![a]);
+        let (pre, post) = self.atomic_wrap(loc);
+        self.new_var(Kind::S { el, loc, bounded, ordered, once: true }, format!("{{0}}{pre}.unique(){post}"), vec![a]);
         true
     }
 
@@ -449,7 +469,8 @@ impl<'c> Gen<'c> {
         let n = 1 + self.ch.below(3);
         self.class("limit");
         self.stateful(loc);
-        self.new_var(Kind::S { el, loc, bounded, ordered: true, once: true }, format!("{{0}}.limit(q!({n}usize))"), vec![a]);
+        let (pre, post) = self.atomic_wrap(loc);
+        self.new_var(Kind::S { el, loc, bounded, ordered: true, once: true }, format!("{{0}}{pre}.limit(q!({n}usize)){post}"), vec![a]);
         true
     }
 
@@ -659,7 +680,8 @@ impl<'c> Gen<'c> {
                 let f = self.pick(SCAN_I);
                 self.class("keyed-scan");
                 self.stateful(loc);
-                self.new_var(Kind::KS { loc, bounded, ordered: true, once: true }, format!("{{0}}.scan(q!(|| 0i64), q!({f}))"), vec![a]);
+                let (pre, post) = self.atomic_wrap(loc);
+                self.new_var(Kind::KS { loc, bounded, ordered: true, once: true }, format!("{{0}}{pre}.scan(q!(|| 0i64), q!({f})){post}"), vec![a]);
             }
             4 => {
                 if !(ordered && once) {
@@ -667,9 +689,10 @@ impl<'c> Gen<'c> {
                 }
                 self.class("keyed-enumerate");
                 self.stateful(loc);
+                let (pre, post) = self.atomic_wrap(loc);
                 self.new_var(
                     Kind::KS { loc, bounded, ordered: true, once: true },
-                    "{0}.enumerate().map(q!(|(i, v): (usize, i64)| v.wrapping_mul(10).wrapping_add(i as i64)))".into(),
+                    format!("{{0}}{pre}.enumerate().map(q!(|(i, v): (usize, i64)| v.wrapping_mul(10).wrapping_add(i as i64))){post}"),
                     vec![a],
                 );
             }
@@ -1385,7 +1408,7 @@ impl<'c> Gen<'c> {
                     )
                 };
                 tail.push(Stmt { res: None, tmpl: format!("{{0}}{to_top}{adapt}.embedded_output(\"{name}\")"), args: vec![v] });
-                outs.push(OutSpec { name, ty: el.ty(), kind: okind, promise: None, delay: 0, shift_of: None, slice: vec![] });
+                outs.push(OutSpec { name, ty: el.ty(), kind: okind, promise: None, delay: 0, shift_of: None, slice: vec![], concat: false });
             }
             Kind::KS { loc, ordered, once, .. } => {
                 if !once {
@@ -1398,23 +1421,23 @@ impl<'c> Gen<'c> {
                         tmpl: format!("{{0}}.entries_partially_ordered(nondet!(/** terminal observation adapter: per-key order */)){to_top}.embedded_output(\"{name}\")"),
                         args: vec![v],
                     });
-                    outs.push(OutSpec { name, ty: El::P.ty(), kind: if per_tick { OutKind::PerTickKeyed } else { OutKind::KeyedSeq }, promise: None, delay: 0, shift_of: None, slice: vec![] });
+                    outs.push(OutSpec { name, ty: El::P.ty(), kind: if per_tick { OutKind::PerTickKeyed } else { OutKind::KeyedSeq }, promise: None, delay: 0, shift_of: None, slice: vec![], concat: false });
                 } else {
                     tail.push(Stmt {
                         res: None,
                         tmpl: format!("{{0}}.entries(){to_top}.assume_ordering::<TotalOrder>(nondet!(/** terminal observation adapter: multiset */)).embedded_output(\"{name}\")"),
                         args: vec![v],
                     });
-                    outs.push(OutSpec { name, ty: El::P.ty(), kind: if per_tick { OutKind::PerTickBag } else { OutKind::Bag }, promise: None, delay: 0, shift_of: None, slice: vec![] });
+                    outs.push(OutSpec { name, ty: El::P.ty(), kind: if per_tick { OutKind::PerTickBag } else { OutKind::Bag }, promise: None, delay: 0, shift_of: None, slice: vec![], concat: false });
                 }
             }
             Kind::Sg { v: sv, loc, bound } => {
                 if loc == Loc::Tick {
                     tail.push(Stmt { res: None, tmpl: format!("{{0}}.all_ticks().embedded_output(\"{name}\")"), args: vec![v] });
-                    outs.push(OutSpec { name, ty: sv.ty(), kind: OutKind::PerTickSeq, promise: None, delay: 0, shift_of: None, slice: vec![] });
+                    outs.push(OutSpec { name, ty: sv.ty(), kind: OutKind::PerTickSeq, promise: None, delay: 0, shift_of: None, slice: vec![], concat: false });
                 } else if bound == SB::Bounded {
                     tail.push(Stmt { res: None, tmpl: format!("{{0}}.into_stream().embedded_output(\"{name}\")"), args: vec![v] });
-                    outs.push(OutSpec { name, ty: sv.ty(), kind: OutKind::Seq, promise: None, delay: 0, shift_of: None, slice: vec![] });
+                    outs.push(OutSpec { name, ty: sv.ty(), kind: OutKind::Seq, promise: None, delay: 0, shift_of: None, slice: vec![], concat: false });
                 } else {
                     self.uses_tick = true;
                     tail.push(Stmt {
@@ -1423,16 +1446,16 @@ impl<'c> Gen<'c> {
                         args: vec![v],
                     });
                     let promise = if bound == SB::Monotonic { Some(Promise::MonoSingleton) } else { None };
-                    outs.push(OutSpec { name, ty: sv.ty(), kind: OutKind::Final, promise, delay: 0, shift_of: None, slice: vec![] });
+                    outs.push(OutSpec { name, ty: sv.ty(), kind: OutKind::Final, promise, delay: 0, shift_of: None, slice: vec![], concat: false });
                 }
             }
             Kind::Op { el, loc, bounded } => {
                 if loc == Loc::Tick {
                     tail.push(Stmt { res: None, tmpl: format!("{{0}}.all_ticks().embedded_output(\"{name}\")"), args: vec![v] });
-                    outs.push(OutSpec { name, ty: el.ty(), kind: OutKind::PerTickSeq, promise: None, delay: 0, shift_of: None, slice: vec![] });
+                    outs.push(OutSpec { name, ty: el.ty(), kind: OutKind::PerTickSeq, promise: None, delay: 0, shift_of: None, slice: vec![], concat: false });
                 } else if bounded {
                     tail.push(Stmt { res: None, tmpl: format!("{{0}}.into_stream().embedded_output(\"{name}\")"), args: vec![v] });
-                    outs.push(OutSpec { name, ty: el.ty(), kind: OutKind::Seq, promise: None, delay: 0, shift_of: None, slice: vec![] });
+                    outs.push(OutSpec { name, ty: el.ty(), kind: OutKind::Seq, promise: None, delay: 0, shift_of: None, slice: vec![], concat: false });
                 } else {
                     self.uses_tick = true;
                     tail.push(Stmt {
@@ -1440,7 +1463,7 @@ impl<'c> Gen<'c> {
                         tmpl: format!("{{0}}.snapshot(&tick, nondet!(/** terminal observation adapter: per-tick snapshot */)).all_ticks().embedded_output(\"{name}\")"),
                         args: vec![v],
                     });
-                    outs.push(OutSpec { name, ty: el.ty(), kind: OutKind::Final, promise: None, delay: 0, shift_of: None, slice: vec![] });
+                    outs.push(OutSpec { name, ty: el.ty(), kind: OutKind::Final, promise: None, delay: 0, shift_of: None, slice: vec![], concat: false });
                 }
             }
             Kind::KSg { v: sv, loc, bound } => {
@@ -1451,7 +1474,7 @@ impl<'c> Gen<'c> {
                         tmpl: format!("{{0}}.entries().all_ticks().assume_ordering::<TotalOrder>(nondet!(/** terminal observation adapter: multiset */)).embedded_output(\"{name}\")"),
                         args: vec![v],
                     });
-                    outs.push(OutSpec { name, ty, kind: OutKind::PerTickBag, promise: None, delay: 0, shift_of: None, slice: vec![] });
+                    outs.push(OutSpec { name, ty, kind: OutKind::PerTickBag, promise: None, delay: 0, shift_of: None, slice: vec![], concat: false });
                 } else if bound.value_bounded() {
                     tail.push(Stmt {
                         res: None,
@@ -1459,7 +1482,7 @@ impl<'c> Gen<'c> {
                         args: vec![v],
                     });
                     let promise = if bound == KB::BoundedValue { Some(Promise::BoundedValue) } else { None };
-                    outs.push(OutSpec { name, ty, kind: OutKind::Bag, promise, delay: 0, shift_of: None, slice: vec![] });
+                    outs.push(OutSpec { name, ty, kind: OutKind::Bag, promise, delay: 0, shift_of: None, slice: vec![], concat: false });
                 } else {
                     self.uses_tick = true;
                     tail.push(Stmt {
@@ -1472,7 +1495,7 @@ impl<'c> Gen<'c> {
                         KB::MonotonicValue => Some(Promise::MonoValue),
                         _ => None,
                     };
-                    outs.push(OutSpec { name, ty, kind: OutKind::Final, promise, delay: 0, shift_of: None, slice: vec![] });
+                    outs.push(OutSpec { name, ty, kind: OutKind::Final, promise, delay: 0, shift_of: None, slice: vec![], concat: false });
                 }
             }
         }
@@ -1528,6 +1551,36 @@ impl<'c> Gen<'c> {
             self.stateful_top = true;
             let v = self.new_var(Kind::Sg { v: SV::U, loc: Loc::Top, bound: SB::Monotonic }, "{0}.count()".into(), vec![a]);
             self.output_for(v, idx, outs, tail);
+        }
+    }
+
+    /// `across_ticks(|s| s.<stream op>())` on a per-item pipeline of one input, as an extra output
+    fn add_across_output(&mut self, outs: &mut Vec<OutSpec>, tail: &mut Vec<Stmt>) {
+        let cands: Vec<usize> = (0..self.vars.len())
+            .filter(|i| self.vars[*i].pure && matches!(self.vars[*i].kind, Kind::S { loc: Loc::Tick, ordered: true, once: true, .. }))
+            .collect();
+        if cands.is_empty() {
+            return;
+        }
+        let a = cands[self.ch.below(cands.len())];
+        let Kind::S { el, .. } = self.vars[a].kind else { unreachable!() };
+        let (body, out_el) = match (self.ch.below(3), el) {
+            (0, El::I) => ("s.enumerate().map(q!(|(i, x): (usize, i64)| (i as i64, x)))".to_string(), El::P),
+            (0, El::P) => ("s.enumerate().map(q!(|(i, (a, b)): (usize, (i64, i64))| (i as i64, a.wrapping_add(b))))".to_string(), El::P),
+            (1, El::I) => (format!("s.scan(q!(|| 0i64), q!({}))", SCAN_I[0]), El::I),
+            _ => ("s.unique()".to_string(), el),
+        };
+        self.class("across_ticks");
+        self.cycle_or_defer = true;
+        let v = self.new_var(
+            Kind::S { el: out_el, loc: Loc::Tick, bounded: true, ordered: true, once: true },
+            format!("{{0}}.across_ticks(|s| {body})"),
+            vec![a],
+        );
+        self.vars[v].carried = true;
+        let idx = outs.len();
+        if self.output_for(v, idx, outs, tail) {
+            outs.last_mut().unwrap().concat = true;
         }
     }
 
@@ -1601,6 +1654,9 @@ impl<'c> Gen<'c> {
         }
         if self.mode == Mode::Tick && self.ch.chance(1, 2) {
             self.add_shift_output(&mut outs, &mut tail);
+        }
+        if self.mode == Mode::Tick && self.ch.chance(1, 2) {
+            self.add_across_output(&mut outs, &mut tail);
         }
         self.stmts.extend(tail);
         let shared = self.vars.iter().any(|v| v.uses >= 2);
